@@ -753,7 +753,7 @@ func cmdCodec(a Args) {
 		T := sizes[hr.Intn(len(sizes))]
 		atree.VerifSetThreshold(T)
 		flavour := h % 5 // 0 flat, 1 nested, 2 collisions, 3 compact, 4 mixed (collisions + nested)
-		opts := WorldOpts{Addr: 1 + uint64(hr.Intn(3)), Maps: true, Wrap: hr.Chance(60), LargeVals: hr.Chance(60), PopChild: false, KeySpace: 60}
+		opts := WorldOpts{Addr: 1 + uint64(hr.Intn(3)), Maps: true, Wrap: hr.Chance(60), LargeVals: hr.Chance(60), PopChild: true, KeySpace: 60}
 		compact := false
 		collide := false
 		switch flavour {
